@@ -49,6 +49,9 @@ def bank_for(cfg):
     for s in names[:4]:
         if table.T[s].disabled or table.T[s].plaintext:
             continue
+        if s == "postgres_md5":
+            out.append(table.handler(s).hash(PW, user="someone"))
+            continue
         win = ctxgen.POOL.get(s)
         pts = [None] if not win else [win[0] | (1 if s == "bsdi_crypt" else 0), (win[0] + win[1]) // 2 | (1 if s == "bsdi_crypt" else 0)]
         for r in pts:
@@ -92,7 +95,16 @@ def observe(ctx, bank, cheap=True):
                 obs[f"hash:{c}"] = ("ERR", type(h).__name__)
         st, v = call(ctx.dummy_verify)
         obs["dummy_verify"] = v if st == "ok" else ("ERR", type(v).__name__)
-        st, v = call(ctx.verify, PW, bank[0] if bank else "$x$", user="someone") if False else ("ok", None)
+    # context keywords (user=): passed on to the schemes that take them, silently dropped for the others when some scheme of the context takes them
+    for c in CATS[:2]:
+        st, h = call(ctx.hash, PW, category=c, user="someone")
+        obs[f"hash/user:{c}"] = (ctx.identify(h), ctx.verify(PW, h, user="someone")) if st == "ok" else ("ERR", type(h).__name__)
+    for i, h in enumerate(bank[:3]):
+        row = []
+        for fn in (lambda: ctx.verify(PW, h, user="someone"), lambda: ctx.verify_and_update(PW, h, user="someone")[0], lambda: ctx.needs_update(h)):
+            st, v = call(fn)
+            row.append(v if st == "ok" else ("ERR", type(v).__name__))
+        obs[f"bank{i}/user"] = tuple(row)
     return obs
 
 
@@ -225,6 +237,11 @@ def o_update(rec: Recorder, case, soft=False):
     """update(k) replaces exactly the given keys"""
     cfg, change = case["config"], case["change"]
     merged = dict(cfg)
+    for k in change:  # 'vary_rounds' and 'all__vary_rounds' (same for truncate_error) are two spellings of one key
+        base = k[5:] if k.startswith("all__") else k
+        if base in ("vary_rounds", "truncate_error"):
+            merged.pop(base, None)
+            merged.pop("all__" + base, None)
     merged.update(change)
     try:
         m = Model(merged)
@@ -350,7 +367,7 @@ def t_roundtrip(rec, seed, tier, shard):
     from hypothesis import strategies as st
 
     n = {"quick": 60, "thorough": 800}[tier]
-    cases = st.fixed_dictionaries({"config": ctxgen.configs(catchall=False), "via": st.sampled_from(VIAS)})
+    cases = st.fixed_dictionaries({"config": ctxgen.configs(catchall=False, extras=True), "via": st.sampled_from(VIAS)})
 
     def body(case):
         rec.ev()
@@ -373,10 +390,19 @@ def t_update(rec, seed, tier, shard):
 
     @st.composite
     def cases(draw):
-        cfg = draw(ctxgen.configs(catchall=False))
-        other = draw(ctxgen.configs(catchall=False))
+        cfg = draw(ctxgen.configs(catchall=False, extras=True))
+        other = draw(ctxgen.configs(catchall=False, extras=True))
         keys = draw(st.lists(st.sampled_from(sorted(other)), min_size=1, max_size=3, unique=True))
         change = {k: other[k] for k in keys}
+        if draw(st.integers(0, 3)) == 0:
+            # a documented global setting already present in the context is given again, in either spelling, with another value
+            g = draw(st.sampled_from(["vary_rounds", "truncate_error"]))
+            vals = ctxgen.GLOBAL_VARY_VALUES if g == "vary_rounds" else [True, False]
+            for k in (g, "all__" + g):
+                cfg.pop(k, None)
+                change.pop(k, None)
+            cfg[draw(st.sampled_from([g, "all__" + g]))] = draw(st.sampled_from(vals))
+            change[draw(st.sampled_from([g, "all__" + g]))] = draw(st.sampled_from(vals))
         return {"config": cfg, "change": change, "how": draw(st.sampled_from(["kw", "dict", "load-update"]))}
 
     def body(case):
@@ -392,6 +418,7 @@ def t_update(rec, seed, tier, shard):
 BASES = [
     {"schemes": ["md5_crypt", "des_crypt"], "deprecated": ["des_crypt"]},
     {"schemes": ["sha256_crypt", "md5_crypt", "des_crypt"], "sha256_crypt__rounds": 1500, "admin__sha256_crypt__rounds": 2000, "deprecated": ["auto"]},
+    {"schemes": ["md5_crypt", "postgres_md5", "sha256_crypt"], "sha256_crypt__default_rounds": 1500, "vary_rounds": 0.1, "truncate_error": True, "admin__context__default": "sha256_crypt"},
     {"schemes": ["pbkdf2_sha256", "md5_crypt"], "pbkdf2_sha256__min_rounds": 10, "pbkdf2_sha256__max_rounds": 50, "pbkdf2_sha256__default_rounds": 20, "staff__context__default": "md5_crypt"},
 ]
 
@@ -439,7 +466,7 @@ def t_hyp_faults(rec, seed, tier):
 
     n = {"quick": 150, "thorough": 2500}[tier]
     cases = st.fixed_dictionaries({
-        "config": ctxgen.configs(catchall=False, max_schemes=3), "kind": st.sampled_from([k for k, _ in INVALID_ITEMS]), "position": st.integers(0, 3),
+        "config": ctxgen.configs(catchall=False, max_schemes=3, extras=True), "kind": st.sampled_from([k for k, _ in INVALID_ITEMS]), "position": st.integers(0, 3),
         "how": st.sampled_from(["update", "load-update", "load"]),
     })
 
